@@ -65,6 +65,10 @@ def random_classes(ctx, plan):
                 yield G.polycyclic(rng)
             elif cls == "M9deep":
                 yield G.deep_refinement(rng)
+            elif cls == "M10hiso":
+                yield G.mixed_hydrogens(rng)
+            elif cls == "M11hub":
+                yield G.hub(rng)
             else:
                 raise ValueError(cls)
 
